@@ -18,7 +18,10 @@ RULE = ("lists of 1..5 random well-formed trees (2..12 tips, rooted / unrooted /
         "the three formats (plain, digits only, UTF-8, punctuation other than blanks = quotes < > & and the Newick "
         "metacharacters) on one common taxon set or (10%) on differing taxon sets; translate on/off; layout of the Newick "
         "file: one tree per line, blank lines, whitespace-only lines, trailing blanks, CRLF, no final newline, trees "
-        "broken over several lines after each comma, two trees on one line; plus lists outside the quantifier (Nexus "
+        "broken over several lines after each comma, two trees on one line; files of 5..40 KB (2..5 trees of 100..330 tips with "
+        "lengths) wrapped at random commas so that statements straddle the refills of bufio's 4096-byte buffer; every list is "
+        "also written from the trees as BUILT through the API (parent slots at random positions, as after a reroot) to PhyloXML "
+        "and Nexus, and to Nexus from records whose Id was never set (all TREE statements named tree0); plus lists outside the quantifier (Nexus "
         "keywords in any case as labels, e.g. end, TREE, taxlabelſ) for the correspondence only. A case is non-trivial "
         "when every tree is inside the quantifier (the oracle ran); distinct = distinct case text")
 TRUSTED = ["tree built through NewNode/NewEdge + verif hooks; dump through Neigh()/Edges()/Left()/Right()",
@@ -45,7 +48,7 @@ MATCHERS = {
 }
 
 LEGAL = ["A", "B", "Homo_sapiens", "x1", "Taxon-7", "a.b", "12", "0", "7", "+5", "-3", "é", "α", "naïve", "a|b", "x/y", "100%", "_", "#1",
-         "ends", "trees", "T", "F", "U", "N", "D", "e5", "1e5", "0x", "a{1}", "x*", "a\\b", "begin_", "nexus", "tax", "k~v", "a^b", "`q`", "a!b?", "@home", "$1"]
+         "ends", "treees", "T", "F", "U", "N", "D", "e5", "1e5", "0x", "a{1}", "x*", "a\\b", "begin_", "nexus", "tax", "k~v", "a^b", "`q`", "a!b?", "@home", "$1"]
 KEYWORDS = ["end", "END", "tree", "Trees", "gap", "data", "#NEXUS", "matrix", "taxlabelſ", "mıssıng", "begin", "format", "translate", "ntax",
             "dimensions", "characters", "datatype", "nchar", "taxa", "taxlabels", "missing"]
 
@@ -112,9 +115,38 @@ def seps_for(rng, layout, k):
         return s
     return ["\n"] * k
 
+def big_case(rng):
+    """a Newick file of 5..40 KB whose trees are wrapped over several physical lines at random commas: the statements
+    straddle the refills of bufio's 4096-byte buffer (the first tree alone is longer than the buffer half of the time)"""
+    if rng.random() < 0.75:
+        k = rng.choice([2, 2, 3]); ntips = rng.randint(250, 330)      # every statement longer than the buffer
+    else:
+        k = rng.choice([3, 4, 5]); ntips = rng.randint(100, 160)
+    names = names_for(rng, ntips, False)
+    trees = []
+    for i in range(k):
+        g = Gen(rng)
+        t = g.tree(ntips=ntips, maxdeg=4, lenmode="all", supmode=rng.choice(["mixed", "all"]), inner_names=rng.random() < 0.2,
+                   comments=False, up_random=rng.random() < 0.5)
+        nm = list(names); rng.shuffle(nm)
+        j = 0
+        for x in preorder(t):
+            if not kids(x):
+                x["name"] = nm[j]; j += 1
+            for e, c in kids(x):
+                e["pv"] = None
+        trees.append(t)
+    ncommas = sum(n_nodes(t) for t in trees)
+    p = rng.choice([0.02, 0.05, 0.1, 0.3])
+    breakat = [i for i in range(ncommas) if rng.random() < p]
+    o = {"trees": [T(t) for t in trees], "translate": rng.random() < 0.5, "seps": ["\n"] * k, "breaks": False,
+         "breakat": breakat, "nsjson": ns_json(trees[0])}
+    return {"sx": sx(o), "meta": {"ntrees": k, "layout": "bigwrap", "translate": o["translate"], "taxa": "same", "labels": "legal"}}
+
 def gen(rng, tier):
     n = {"quick": 500, "thorough": 30000, "search": 300}[tier]
     out = []
+    bigs = [big_case(rng) for _ in range({"quick": 9, "thorough": 1200, "search": 5}[tier])]
     for _ in range(n):
         illegal = rng.random() < 0.12
         k = rng.choice([1, 1, 2, 2, 3, 4, 5])
@@ -134,4 +166,8 @@ def gen(rng, tier):
              "breaks": layout == "breaks", "nsjson": ns_json(trees[0])}
         out.append({"sx": sx(o), "meta": {"ntrees": k, "layout": layout, "translate": o["translate"], "taxa": "differ" if differ else "same",
                                           "labels": "with-keywords" if illegal else "legal"}})
+    # the big files are spread over the chunks of 200 cases (one worker and judge process per chunk)
+    step = max(1, len(out) // max(1, len(bigs)))
+    for j, bc in enumerate(bigs):
+        out.insert(min(len(out), j * (step + 1)), bc)
     return out
